@@ -156,6 +156,7 @@ func Report(c *ev.Ctx, prop, class string, opt csnet.Options, res *csnet.Result,
 	c.Count("restart_failed", res.RestartFailed)
 	c.Count("durable_before_send_checks", res.DurableChecks)
 	c.Count("remembered_after_recovery_checks", res.RememberChecks)
+	c.Count("import_callbacks_delayed", res.ImportDelays)
 	c.Count("sent_after_restart_same_height", res.SentAfterRestartSameHeight)
 	c.Count("packets_sent", int(res.Router.Sent))
 	c.Count("packets_dropped", int(res.Router.Dropped))
